@@ -103,13 +103,8 @@ func (c *deleteCleaner) applyMessagesLimit(segments []*segment) ([]*segment, err
 		cleanedSegments = append([]*segment{s}, cleanedSegments...)
 	}
 	if i > -1 {
-		// Collect segments to delete
-		toDelete := make([]*segment, 0, i+1)
-		for ; i > -1; i-- {
-			toDelete = append(toDelete, segments[i])
-		}
 		// Delete segments using mark-then-delete for consistency
-		if err := c.deleteSegments(toDelete); err != nil {
+		if err := c.deleteSegments(segments[:i+1]); err != nil {
 			return nil, err
 		}
 	}
@@ -141,13 +136,8 @@ func (c *deleteCleaner) applyBytesLimit(segments []*segment) ([]*segment, error)
 		cleanedSegments = append([]*segment{s}, cleanedSegments...)
 	}
 	if i > -1 {
-		// Collect segments to delete
-		toDelete := make([]*segment, 0, i+1)
-		for ; i > -1; i-- {
-			toDelete = append(toDelete, segments[i])
-		}
 		// Delete segments using mark-then-delete for consistency
-		if err := c.deleteSegments(toDelete); err != nil {
+		if err := c.deleteSegments(segments[:i+1]); err != nil {
 			return nil, err
 		}
 	}
@@ -188,7 +178,8 @@ func (c *deleteCleaner) applyAgeLimit(segments []*segment) ([]*segment, error) {
 	return segments[idx:], nil
 }
 
-// deleteSegments deletes the given segments using a mark-then-delete approach.
+// deleteSegments deletes the given segments, which must be the oldest segments
+// of the log ordered from oldest to newest, using a mark-then-delete approach.
 // This ensures that if deletion fails partway through, the segments are already
 // removed from the read path (marked as deleted) and won't cause inconsistency.
 // The actual file deletion can be retried on the next cleanup cycle.
@@ -199,19 +190,17 @@ func (c *deleteCleaner) deleteSegments(segments []*segment) error {
 		seg.MarkDeleted()
 	}
 
-	// Phase 2: Actually delete the files. If this fails partway through,
-	// the segments are already marked deleted and won't be visible to readers.
-	// Remaining files will be cleaned up on the next cleanup cycle.
-	var firstErr error
+	// Phase 2: Actually delete the files, oldest first. If this fails or the
+	// process dies partway through, the segments remaining on disk must still
+	// be a contiguous suffix of the log, so stop at the first failure rather
+	// than leave a gap behind a segment that could not be deleted. Remaining
+	// files will be cleaned up on the next cleanup cycle.
 	for _, seg := range segments {
 		if err := seg.Delete(); err != nil {
 			c.Logger.Warnf("Failed to delete segment %d: %v", seg.BaseOffset, err)
-			if firstErr == nil {
-				firstErr = err
-			}
-			// Continue trying to delete other segments
+			return err
 		}
 	}
 
-	return firstErr
+	return nil
 }
